@@ -62,6 +62,11 @@ def _ops():
     add("mr:far/m1/vr", FT, FB, 1, False, True)
     add("mr:far/m1/large", FT, FB, 1, True, False)
     add("mr:far/m0", FT, FB, 0, False, False)
+    # relaxed mode beyond its recursive pre-pass (the branch-witness pair of mc/lattice.py), single-setting variants
+    BWT, BWB = (177, 235, 241), (141, 109, 0)
+    add("mr:bw/m2", BWT, BWB, 2, False, False)
+    add("mr:bw/m2/vr", BWT, BWB, 2, False, True)
+    add("mr:bw/m2/large", BWT, BWB, 2, True, False)
     # same text on two backgrounds that both need a fix, in opposite directions
     add("mr:78/dark/m1", "#787878", "#282828", 1, False, False)
     add("ir:T1/B1", T1, B1, False)
@@ -98,7 +103,7 @@ QUICK_OPS = ["mr:T1/B1/m1", "mr:T1/B1/m1/vr", "mr:T1/B1/m1/large", "mr:T1/B1/m0"
              "P.mr:m1", "P.mr:m0/vr", "P.mr:m2", "P.ir", "bulk:T1B1,T3B2", "bulk:T3B2,T1B1", "cli:sheet", "show:T1/B1",
              "mr:rgba/B1/m1", "mr:hsl/B1/m1", "mr:chroma/mid/m1",
              # the deepest path of each mode, and a strict-mode probe that needs the last tolerance of the schedule
-             "mr:yellow/B1/m2", "mr:T3/B1/m0"]
+             "mr:yellow/B1/m2", "mr:T3/B1/m0", "mr:bw/m2", "mr:bw/m2/vr", "mr:bw/m2/large"]
 THOROUGH_OPS = QUICK_OPS + ["mr:aaa/B1/m1", "bulk:T2B1,T1B1/m0/vr", "bulk:T1B1large,bad", "new:bad", "mr:78/B1/m0",
                             "cli:sheet/premium"]
 
@@ -503,7 +508,7 @@ def run(ctx):
     # abnormal-termination prefix, then two queries on the same base pair differing in one setting (both orders)
     ABN = ["cli:empty_dir", "cli:only_cm_files", "bulk:raises_midway"]
     FAM = [["mr:T1/B1/m1", "mr:T1/B1/m1/vr", "mr:T1/B1/m1/large", "mr:T1/B1/m0", "mr:T1/B1/m2", "P.mr:m1", "P.mr:m0/vr"],
-           ["mr:far/m1", "mr:far/m1/vr", "mr:far/m1/large", "mr:far/m0"]]
+           ["mr:far/m1", "mr:far/m1/vr", "mr:far/m1/large", "mr:far/m0"], ["mr:bw/m2", "mr:bw/m2/vr", "mr:bw/m2/large"]]
     for a in ABN:
         seqs.append([a])
         for o in ops_r:
